@@ -11,7 +11,7 @@ encode = default_encode(SIG)
 decode = default_decode(SIG)
 TASK_REQS = 2000
 RULE = ('pow requests (base, exponent): bases 0, +-1, +-2, 2^k, 2^k+-1, floor(2^(BITS/e))+-1 (power overflow boundary), negative '
-        'bases hitting exactly MIN, structured values; exponents 0..3, parity pairs, BITS-1, BITS, u32::MAX, uniform. log requests '
+        'bases hitting exactly MIN, power-of-two bases 2^k with exponents making k*e wrap 2^32, structured values; exponents 0..3, parity pairs, BITS-1, BITS, u32::MAX, uniform. log requests '
         '(x, base): b^k, b^k-1, b^k+1, MAX, 1, non-positive x, bases 0, 1, 2, 10, MAX, x itself. All (base, exponent<=17) at 8 bits. '
         'Non-trivial: the exact power is within one bit of the boundary, equals MIN, overflows; the log argument is an exact power '
         'of the base or one off; invalid log argument/base; distinct = distinct request lines')
@@ -78,6 +78,18 @@ def requests(cfg, rng, n, tier, part, nparts, st):
             elif rr < 0.70:
                 a = rng.choice((0, 1, -1, 2, -2, 3, -3, 10, cfg.max, cfg.min))
                 e = rng.choice((e, 0, 1, (1 << 32) - 1, (1 << 32) - 2, 1 << 31, rng.getrandbits(32), b - 1, b, b - 2))
+            elif rr < 0.78:
+                # power-of-two base with an exponent for which k*e is at, or just above, a multiple of 2^32 (an exponent-times-log2
+                # computation in 32 bits would wrap to a small shift)
+                k = rng.choice((1, 2, 3, 4, 8, 16, 32, 64, rng.randrange(1, b)))
+                k = min(k, b - 1)
+                m = rng.choice((1, 1, 2, 3))
+                e = -(-(m << 32) // k) + rng.choice((0, 0, 1, 2, rng.randrange(0, b)))
+                if e >= 1 << 32:
+                    e = (1 << 32) - 1
+                a = 1 << k
+                if cfg.signed and rng.random() < 0.4:
+                    a = -a
             elif rr < 0.85:
                 a = gen.short(cfg, rng)
                 e = rng.choice((0, 1, 2, 3, 4, 5, 6, 7, rng.getrandbits(5)))
